@@ -325,6 +325,48 @@ Proof.
     + subst lo. discriminate Hok.
 Qed.
 
+(** the indices of the "file" parts of a request (the argument [o_midflush] is
+    asked about); every part, file or "commit" field, advances the index *)
+Fixpoint file_indices (items : list item) (i : N) : list N :=
+  match items with
+  | [] => []
+  | IFile _ _ _ _ :: r => i :: file_indices r (i + 1)
+  | _ :: r => file_indices r (i + 1)
+  end.
+
+Lemma index_file_no_midflush o w id i user tm name body nw cut w' rs :
+  index_file o w id i user tm name body nw cut = (w', FOk _ rs) -> o_midflush o i = false.
+Proof.
+  unfold Upload.index_file. intros H.
+  destruct (o_fs o (fw_ops w)); [inversion H|].
+  destruct (any_fail (o_fs o) (S (fw_ops w)) _); [inversion H|].
+  destruct (any_fail (o_fs o) (S (fw_ops w) + _) nw); [inversion H|].
+  destruct (o_midflush o i); [inversion H | reflexivity].
+Qed.
+
+(** a part loop that did not fail met no refused mid-upload flush: for every
+    file part, the flush forced by the 990-argument limit (if any) succeeded *)
+Lemma part_loop_no_midflush o user tm : forall items i ids w up lo,
+  part_loop o user tm items i ids w up = lo -> lo_failed _ lo = false ->
+  forall j, In j (file_indices items i) -> o_midflush o j = false.
+Proof.
+  induction items as [|it rest IH]; intros i ids w up lo H Hok j Hj; [destruct Hj|].
+  destruct it as [name body nw cut| |field]; cbn [Upload.part_loop file_indices] in *.
+  - destruct up as [p|].
+    + destruct (index_file o w (pd_id _ p) i user tm name body nw cut) as [w' fo] eqn:Ef.
+      destruct fo as [rs|]; [|subst lo; discriminate Hok].
+      destruct Hj as [<-|Hj]; [exact (index_file_no_midflush _ _ _ _ _ _ _ _ _ _ _ _ Ef)|].
+      exact (IH _ _ _ _ _ H Hok j Hj).
+    + destruct (o_new_upload o); [subst lo; discriminate Hok|].
+      destruct (alloc ids) as [id|]; [|subst lo; discriminate Hok].
+      destruct (index_file o w _ i user tm name body nw cut) as [w' fo] eqn:Ef.
+      destruct fo as [rs|]; [|subst lo; discriminate Hok].
+      destruct Hj as [<-|Hj]; [exact (index_file_no_midflush _ _ _ _ _ _ _ _ _ _ _ _ Ef)|].
+      exact (IH _ _ _ _ _ H Hok j Hj).
+  - exact (IH _ _ _ _ _ H Hok j Hj).
+  - subst lo. discriminate Hok.
+Qed.
+
 (** number of file-store operations a request performs when nothing fails *)
 Definition ops_used (o : oracle) (st : ustate rec) (rq : request) : nat :=
   fw_ops (lo_fsw _ (part_loop o (rq_user rq) (rq_time rq) (rq_items rq) 0 (us_ids st) (mkFsw (us_fs st) 0) None)).
@@ -337,7 +379,8 @@ Theorem upload_success_means_no_fault o st rq st' id fids :
   /\ files_sound id (rq_user rq) (rq_time rq) (rq_items rq) 0
   /\ o_new_upload o = false /\ o_flush o = false /\ o_commit o = false
   /\ rejects (coalesce (exp_results id (rq_user rq) (rq_time rq) (rq_items rq) 0)) = false
-  /\ (forall n, n < ops_used o st rq -> o_fs o n = false).
+  /\ (forall n, n < ops_used o st rq -> o_fs o n = false)
+  /\ (forall i, In i (file_indices (rq_items rq) 0) -> o_midflush o i = false).
 Proof.
   intros H. pose proof (upload_success_stores_everything _ _ _ _ _ _ H) as (_ & _ & Hsound & _).
   unfold Upload.run_upload in H. unfold ops_used.
@@ -345,6 +388,8 @@ Proof.
                 (mkFsw (us_fs st) 0) None _ eq_refl) as S.
   pose proof (part_loop_no_fs_fault o (rq_user rq) (rq_time rq) (rq_items rq) 0 (us_ids st)
                 (mkFsw (us_fs st) 0) None _ eq_refl) as F.
+  pose proof (part_loop_no_midflush o (rq_user rq) (rq_time rq) (rq_items rq) 0 (us_ids st)
+                (mkFsw (us_fs st) 0) None _ eq_refl) as M.
   destruct (lo_failed _ _) eqn:Ef; cbn [orb] in H; [inversion H|].
   destruct (end_fails (rq_end rq)) eqn:Eend; [inversion H|].
   destruct (lo_pend _ _) as [p|] eqn:Ep; [|inversion H].
@@ -357,6 +402,19 @@ Proof.
   split; [intros E; rewrite E in Eend; discriminate|].
   split; [exact Hsound|]. split; [apply Hnew; congruence|].
   repeat split; auto. intros n Hn. apply Hno. lia.
+Qed.
+
+(** the converse reading for the new oracle component: a refused flush at the
+    990-argument boundary while ANY file part is being read makes the upload
+    fail and (by [upload_error_changes_no_records]) leaves no record *)
+Theorem midflush_fault_fails_upload o st rq i :
+  In i (file_indices (rq_items rq) 0) -> o_midflush o i = true ->
+  snd (run_upload o st rq) = UErr.
+Proof.
+  intros Hi Hm. destruct (run_upload o st rq) as [st' out] eqn:E. cbn [snd].
+  destruct out as [id fids|]; [|reflexivity].
+  apply upload_success_means_no_fault in E. destruct E as (_ & _ & _ & _ & _ & _ & _ & M).
+  rewrite (M i Hi) in Hm. discriminate Hm.
 Qed.
 
 (** a body whose part sequence breaks off with an error is always refused *)
